@@ -27,6 +27,7 @@ def main(argv):
             return 2
     mod = importlib.import_module("verif.checks.%s" % prop.lower())
     if replay:
+        sys.setrecursionlimit(10000)        # as in the pool workers (long straight-line programs nest deeply inside PyTeal)
         with open(replay) as f:
             rec = json.load(f)
         fn = getattr(mod, "replay", None)
